@@ -121,12 +121,13 @@ def diagram_spec(rnd, comps, rel, prefix=None):
     return {"components": names, "relation": [(m[a], m[b]) for a, b in rel], "decl": decl, "arrow_forms": arrow_forms}
 
 
-def write_diagram(spec, name):
+def write_diagram(spec, name, newline=None):
     d = os.path.join(trees.scratch_dir(), "puml7")
     os.makedirs(d, exist_ok=True)
     path = os.path.join(d, name)
-    with open(path, "w") as f:
-        f.write(rpuml.render(spec))
+    with open(path, "w", newline="") as f:
+        text = rpuml.render(spec)
+        f.write(text.replace("\n", newline) if newline else text)  # diagrams saved with Windows line endings
     comps, rel = rpuml.truth(spec)
     register_puml(path, comps, rel)
     return path
@@ -139,8 +140,12 @@ def evaluate(case, acc, seed_for_forms):
     BASE = case.get("base", "r.app")
     ev = build(case["mods"], [tuple(i) for i in case["imps"]])
     HUB.case = dict(case, kind="diagram", forms_seed=seed_for_forms)
-    short = write_diagram(diagram_spec(rnd, case["comps"], [tuple(r) for r in case["rel"]]), f"s{acc.evaluations}.puml")
-    fq = write_diagram(diagram_spec(rnd, case["comps"], [tuple(r) for r in case["rel"]], prefix=BASE), f"f{acc.evaluations}.puml")
+    crlf = rnd.random() < 0.25
+    if crlf:
+        acc.count("diagrams_with_crlf_line_endings")
+    short = write_diagram(diagram_spec(rnd, case["comps"], [tuple(r) for r in case["rel"]]), f"s{acc.evaluations}.puml", "\r\n" if crlf else None)
+    fq = write_diagram(diagram_spec(rnd, case["comps"], [tuple(r) for r in case["rel"]], prefix=BASE), f"f{acc.evaluations}.puml", "\r\n" if crlf else None)
+    relative = rnd.random() < 0.3  # the diagram named relative to the current working directory
     results = {}
     for mode in (True, False):
         before = acc.counters["c07_judged"]
@@ -149,7 +154,16 @@ def evaluate(case, acc, seed_for_forms):
             r1 = DiagramRule()  # the documented default mode
             r1.__dict__["_pta_intent_should_only"] = True
             acc.count("diagram_rules_in_default_mode")
-        o1, m1 = run(r1.from_file(Path(short)).with_base_module(BASE), ev)
+        if relative:
+            cwd = os.getcwd()
+            os.chdir(os.path.dirname(short))
+            try:
+                o1, m1 = run(r1.from_file(Path(os.path.basename(short))).with_base_module(BASE), ev)
+            finally:
+                os.chdir(cwd)
+            acc.count("diagrams_named_relative_to_the_working_directory")
+        else:
+            o1, m1 = run(r1.from_file(Path(short)).with_base_module(BASE), ev)
         o2, m2 = run(DiagramRule(should_only_rule=mode).from_file(Path(fq)).base_module_included_in_module_names(), ev)
         acc.evaluated(2)
         acc.count("twin_pairs")
@@ -284,6 +298,9 @@ def floors(acc, tier):
         why.append("too few cases with a component named like the base module")
     if acc.counters["reused_rule_sequences_with_changing_verdict"] < 20:
         why.append(f"only {acc.counters['reused_rule_sequences_with_changing_verdict']} re-used rule objects saw both a conforming and a violating architecture")
+    for c in ("diagrams_with_crlf_line_endings", "diagrams_named_relative_to_the_working_directory"):
+        if acc.counters[c] < 50:
+            why.append(f"{c}: only {acc.counters[c]}")
     if acc.counters["diagram_rules_configured_interleaved"] < 50:
         why.append(f"only {acc.counters['diagram_rules_configured_interleaved']} diagram rules configured while another one was being configured")
     if acc.counters["c07_judged"] < 1000:
